@@ -219,9 +219,24 @@ func safely(f func()) (panicked string) {
 
 // ---- implementation-side operations (answers in the driver's output syntax) ----
 
+// plainWriter is an io.Writer and nothing else (a file, a connection, a hash): every other encode
+// goes to one, the others to a *bytes.Buffer, and the bytes must be the same.
+type plainWriter struct{ b *bytes.Buffer }
+
+func (p plainWriter) Write(x []byte) (int, error) { return p.b.Write(x) }
+
+var destAlt [2]int
+
+func encodeDest(which int, buf *bytes.Buffer) io.Writer {
+	if destAlt[which]++; destAlt[which]%2 == 0 {
+		return plainWriter{buf}
+	}
+	return buf
+}
+
 func implEncode(v *wv.V) string {
 	var buf bytes.Buffer
-	if err := binary.Default.Encode(v.ToWire(), &buf); err != nil {
+	if err := binary.Default.Encode(v.ToWire(), encodeDest(0, &buf)); err != nil {
 		return "err"
 	}
 	return "ok " + hx(buf.Bytes())
@@ -229,7 +244,7 @@ func implEncode(v *wv.V) string {
 
 func implStreamEncode(v *wv.V) string {
 	var buf bytes.Buffer
-	w := binary.Default.Writer(&buf)
+	w := binary.Default.Writer(encodeDest(1, &buf))
 	err := v.WriteStream(w)
 	w.Close()
 	if err != nil {
@@ -323,6 +338,29 @@ func implStream(t byte, b []byte, sizes []int) (res string, val *wv.V, consumed 
 	})
 	if p != "" {
 		return "panic " + p, nil, 0
+	}
+	return
+}
+
+// implStreamBuffer reads the value from a *bytes.Buffer, which the caller then reuses for its next
+// message (Reset + Write) BEFORE looking at the value: a decoded value owns its bytes.
+func implStreamBuffer(t byte, b []byte) (res string) {
+	p := safely(func() {
+		buf := bytes.NewBuffer(append(make([]byte, 0, len(b)+64), b...))
+		sr := binary.Default.Reader(buf)
+		v, err := wv.ReadStream(sr, t)
+		sr.Close()
+		if err != nil {
+			res = "err"
+			return
+		}
+		consumed := len(b) - buf.Len()
+		buf.Reset()
+		buf.Write(bytes.Repeat([]byte{0xa5}, len(b)+32))
+		res = fmt.Sprintf("ok %d %s", consumed, v.Text())
+	})
+	if p != "" {
+		return "panic " + p
 	}
 	return
 }
@@ -482,6 +520,11 @@ func c02Value(c *checker, v *wv.V, how string) {
 		c.oracle("C02 StreamRead(Encode v)≠v", fmt.Sprintf("D %d %s", v.T, hx(b)), s, "streaming read of Encode(v) is not v: want "+want)
 	}
 	c.expect("C02 stream read vs model dec", fmt.Sprintf("D %d %s", v.T, hx(b)), s)
+	if c02ReuseN%3 == 2 && len(b) < 70000 {
+		if sb := implStreamBuffer(v.T, b); sb != want {
+			c.oracle("C02 a value read from a bytes.Buffer changes when the buffer is reused", fmt.Sprintf("D %d %s", v.T, hx(b)), sb, "want "+want)
+		}
+	}
 	if c02ReuseN%3 == 1 && len(b) < 4000 {
 		// more data behind the value (the next message on the connection), handed out as eagerly
 		// as the reader asks for it: reading the value must take exactly its own bytes
@@ -725,7 +768,7 @@ func runC02(c *checker, r *rng.R) {
 		}
 	}
 	c.flush()
-	c.rep.Rule = "values: bounded-exhaustive enumeration of small shapes + random typed values (all 11 types, nested, raw element-type bytes on empty containers, extreme ints, special doubles) + binaries at the 1 MiB threshold, two over-threshold binaries per value, long maps/lists/sets of fixed-width items (300–6000 entries; four of 2^16 … 2^16+4 items, without the model), every binary length 120–300 and around powers of two up to 64 KiB; random-access decode through bytes.Reader and through a ReaderAt that returns io.EOF together with the last bytes; every third value preceded by an Encode and a stream-writer sequence of the same value into a destination that fails half-way; stream reads and skips (every other non-seekable reader with a Seek method that always fails, like the read end of a pipe; binaries alternately through ReadBinary and ReadString) under rotating segmentation (whole, 1, 3, 7 bytes, and 1 or 2 bytes after a zero-length read each), every other reader returning its last byte together with io.EOF; every third value is also read from a stream that goes on behind it (consumption must be exact); random-access decodes also through a bytes.Reader that has been read from before; every fourth value (and every large one) is also decoded, encoded, forced with wire.EvaluateValue, followed by other decodes, and encoded and read again: it must still be the original; non-trivial = has more than one node or is a double/binary; distinct by canonical text"
+	c.rep.Rule = "values: bounded-exhaustive enumeration of small shapes + random typed values (all 11 types, nested, raw element-type bytes on empty containers, extreme ints, special doubles) + binaries at the 1 MiB threshold, two over-threshold binaries per value, long maps/lists/sets of fixed-width items (300–6000 entries; four of 2^16 … 2^16+4 items, without the model), every binary length 120–300 and around powers of two up to 64 KiB; Encode and the stream writer alternately into a *bytes.Buffer and into a writer that is an io.Writer and nothing else; random-access decode through bytes.Reader and through a ReaderAt that returns io.EOF together with the last bytes; every third value preceded by an Encode and a stream-writer sequence of the same value into a destination that fails half-way; stream reads and skips (every other non-seekable reader with a Seek method that always fails, like the read end of a pipe; binaries alternately through ReadBinary and ReadString) under rotating segmentation (whole, 1, 3, 7 bytes, and 1 or 2 bytes after a zero-length read each), every other reader returning its last byte together with io.EOF; every third value is also read from a stream that goes on behind it (consumption must be exact), every third from a bytes.Buffer that is reset and refilled before the value is looked at; random-access decodes also through a bytes.Reader that has been read from before; every fourth value (and every large one) is also decoded, encoded, forced with wire.EvaluateValue, followed by other decodes, and encoded and read again: it must still be the original; non-trivial = has more than one node or is a double/binary; distinct by canonical text"
 }
 
 // ---- C03 ----
